@@ -567,6 +567,16 @@ func statusScenarios(seed int64) []Scenario {
 			out = append(out, Scenario{LaneSize: ls, QueueSize: qs, TimeoutMs: 3600000, Producers: [][]PushSpec{nil}, Cancel: CancelPlan{Kind: "none"}, PostPush: 1})
 		}
 	}
+	// more than 255 tasks held at once: every worker of a 300-lane lane pinned, one more task held by each
+	// queue goroutine (queueSize 0) - and 260 lanes with a queue - the pending count is exactly that number
+	for _, cfg := range [][2]int{{300, 0}, {260, 1}} {
+		ls, qs := cfg[0], cfg[1]
+		var pushes []PushSpec
+		for i := 0; i < ls*(qs+1); i++ {
+			pushes = append(pushes, PushSpec{Lane: i % ls, Task: TaskSpec{Kind: "instant"}})
+		}
+		out = append(out, Scenario{LaneSize: ls, QueueSize: qs, TimeoutMs: 3600000, Pins: seq(ls), Producers: [][]PushSpec{pushes}, Cancel: CancelPlan{Kind: "none"}, Pollers: 1, PostPush: 0})
+	}
 	for i := range out {
 		out[i].Seed = seed + int64(i)
 	}
